@@ -229,6 +229,11 @@ def main(argv):
         exhaustive=bool(getattr(mod, 'EXHAUSTIVE', {}).get(tier, False)),
         notes=notes,
     )
+    if hasattr(mod, 'summary_notes'):
+        try:
+            cov['not_exercised'] = mod.summary_notes(cases, outs)
+        except Exception as e:
+            notes['summary_notes_error'] = str(e)[:200]
     wall = time.time() - t0
     if not replay:
         ev = core.write_evidence(pid, tier, seed, cov, wall, nviol,
